@@ -458,6 +458,11 @@ func (u *clientUpdater) updateService(ctx context.Context, service ServiceDefini
 		if exists {
 			continue
 		}
+		if presentation.Format() != vc.JWTPresentationProofFormat {
+			// only JWT presentations can be registered (and stored); skip what a broken or malicious server sends
+			log.Logger().Warnf("Discovery Service returned a presentation that is not a JWT, skipping it (service=%s)", service.ID)
+			continue
+		}
 
 		// always add the presentation, even if it's not valid
 		// it won't be returned in a search if invalid
